@@ -442,6 +442,14 @@ def semantic_scenarios(tier: str):
         for ms in itertools.permutations(universe, size):
             for mask in masks:
                 yield kinds, list(mask), list(ms)
+    # degenerate programs: no variable at all (the program is a constant: satisfiable or not), a single variable
+    for kinds1 in ([], ["b"], ["i"]):
+        doms1 = [next(d for kk, d in VAR_KINDS if kk == k) for k in kinds1]
+        universe1 = list(itertools.product(*doms1))
+        for size in range(0, min(3, len(universe1)) + 1):
+            for ms in itertools.permutations(universe1, size):
+                for mask in itertools.product([False, True], repeat=len(kinds1)):
+                    yield kinds1, list(mask), list(ms)
 
 
 def check_semantics(repo: Repo, rep: Report, tier: str = "quick") -> bool:
@@ -739,6 +747,10 @@ def check_vocabulary(repo: Repo, rep: Report) -> List[str]:
 
 
 def run(repo: Repo, rep: Report) -> None:
+    # which variables are answer keys is part of C02's input: every form of add_answer_key's argument registers every variable (VID-5)
+    from . import z3m
+
+    z3m.check_posting(repo, rep)
     sem_ok = check_semantics(repo, rep, rep.tier)
     sem_found = any(f.rule == "REF-E" for f in rep.findings)
     cap = _Capture(rep)
